@@ -62,6 +62,20 @@ func Float64ListToDecimalIntList(dst []int64, src []float64) ([]int64, int16, er
 		}
 		decimals[i] = scaled
 	}
+	// The decoder restores a value with floating-point arithmetic (float64(v)
+	// scaled by a power of ten), which is not exact for every decimal: a
+	// mantissa beyond 2^53 or a large exponent can come back one ulp off.
+	// Refuse unless every value restores to itself, so that callers fall back
+	// to the lossless plain encoding.
+	restored, err := DecimalIntListToFloat64List(make([]float64, 0, len(decimals)), decimals, minExp, len(decimals))
+	if err != nil || len(restored) != len(src) {
+		return nil, 0, errCannotEncodeLossless
+	}
+	for i, f := range src {
+		if restored[i] != f {
+			return nil, 0, errCannotEncodeLossless
+		}
+	}
 	return decimals, minExp, nil
 }
 
